@@ -70,7 +70,7 @@ def _slice_case(draw):
               for n in shape]
     astuple = True if ndim > 1 else draw(st.booleans())
     return {'op': 'slice', 'shape': shape, 'kinds': kinds, 'slices': slices,
-            'astuple': astuple, 'layout': draw(st.sampled_from(['C', 'C', 'F'])),
+            'astuple': astuple, 'layout': draw(st.sampled_from(dsutil.LAYOUTS)),
             'grids': [draw(_GRID) for _ in range(ndim)], 'keys': draw(_KEYS)}
 
 
@@ -81,7 +81,7 @@ def _squeeze_case(draw):
     has_bins = draw(st.booleans())
     kinds = [draw(st.sampled_from('ec')) for _ in range(ndim)] if has_bins else None
     return {'op': 'squeeze', 'shape': shape, 'kinds': kinds,
-            'layout': draw(st.sampled_from(['C', 'C', 'F'])),
+            'layout': draw(st.sampled_from(dsutil.LAYOUTS)),
             'grids': [draw(_GRID) for _ in range(ndim)], 'keys': draw(_KEYS)}
 
 
@@ -105,8 +105,8 @@ def _build(case):
     size = int(np.prod(shape)) if shape else 1
     value = (np.arange(size, dtype=float) + 1.0).reshape(shape)
     error = value * 0.125
-    if case.get('layout') == 'F' and len(shape) >= 2:     # same numbers, Fortran memory order
-        value, error = np.asfortranarray(value), np.asfortranarray(error)
+    value = dsutil.relayout(value, case.get('layout', 'C'))     # same numbers, other memory layout
+    error = dsutil.relayout(error, case.get('layout', 'C'))
     bins = dsutil.make_bins(shape, case['kinds']) if case['kinds'] else None
     if bins is not None and (case.get('grids') or case.get('keys')):
         names = _key_names(len(shape), case.get('keys', 'plain'))
